@@ -276,6 +276,10 @@ func scLaggingSnapshot(d *Driver) {
 		scHigherTermTail(d, l)
 		return
 	}
+	if len(oth) >= 2 && pct(d.r, 25) {
+		scVoteRightAfterSnapshot(d, l, f)
+		return
+	}
 	if d.c.Nodes[f].Cfg.Async && len(oth) >= 2 && pct(d.r, 50) {
 		if pct(d.r, 50) {
 			scApplyVsSnapshot(d, l, f)
@@ -361,6 +365,16 @@ func scLaggingSnapshot(d *Driver) {
 				d.with(calm, 1+d.r.Intn(5))
 			}
 		}
+		if len(snaps) > 0 && pct(d.r, 50) {
+			// right after the leader's snapshot reached f, somebody else asks f for its vote
+			if oo := d.others(f); len(oo) > 0 {
+				c := d.pick(oo)
+				d.c.Do(Step{Act: "Campaign", Node: c})
+				d.pipeline(c)
+				d.deliverSel(MsgSel{Type: "PreVote", From: c, To: f})
+				d.deliverSel(MsgSel{Type: "Vote", From: c, To: f})
+			}
+		}
 	}
 	d.with(p, 20)
 	if d.frozenAppend[f] && pct(d.r, 60) {
@@ -374,6 +388,75 @@ func scLaggingSnapshot(d *Driver) {
 	}
 	d.unfreeze()
 	d.with(p, 80)
+}
+
+// f follows the leader but has heard nothing from it for almost an election timeout when the snapshot
+// it needs arrives; one tick later another node asks f for its vote
+func scVoteRightAfterSnapshot(d *Driver, l *AppNode, f uint64) {
+	d.frozenApply[f] = false
+	d.runNode(f)
+	d.isolate([]uint64{f})
+	d.dropWhere(func(m *pb.Message) bool { return m.GetTo() == f || m.GetFrom() == f })
+	d.propose(l, 2+d.r.Intn(3), false)
+	d.waitFor(60, func() bool {
+		st, perr := safeState(l.RN)
+		return perr != "" || (st.Commit == st.LastIndex && st.Applied == st.Commit)
+	})
+	if d.c.up(l.ID) == nil || !safeIsLeader(l.RN) || d.c.up(f) == nil {
+		d.heal()
+		d.settle(100)
+		return
+	}
+	if _, hi := d.c.snapBounds(l); hi > 1 {
+		if d.c.Do(Step{Act: "Snapshot", Node: l.ID, K: hi}) {
+			d.c.Do(Step{Act: "Compact", Node: l.ID, K: hi})
+		}
+	}
+	d.heal()
+	d.holdTypes[pb.MsgSnap] = true
+	onWire := func() bool {
+		for _, nm := range d.c.Net {
+			if nm.M.GetType() == pb.MsgSnap && nm.M.GetTo() == f {
+				return true
+			}
+		}
+		return false
+	}
+	p := calm
+	p.Tick = 0
+	for k := 0; k < 25 && !onWire(); k++ {
+		d.c.Do(Step{Act: "Tick", Node: l.ID})
+		d.with(p, 12)
+		d.reportStaleSnapshots()
+	}
+	// from now on nothing of the leader reaches f but the snapshot
+	d.blocked[[2]uint64{l.ID, f}] = true
+	et := d.c.Nodes[f].Cfg.ElectionTick
+	for t := 0; t < et-1; t++ {
+		d.c.Do(Step{Act: "Tick", Node: f})
+	}
+	d.releaseHolds()
+	d.deliverSel(MsgSel{Type: "Snap", To: f})
+	d.c.Do(Step{Act: "Tick", Node: f})
+	var other uint64
+	for _, id := range d.others(l.ID) {
+		if id != f {
+			other = id
+		}
+	}
+	d.c.Do(Step{Act: "Campaign", Node: other})
+	d.pipeline(other)
+	d.runNode(other)
+	d.deliverSel(MsgSel{Type: "PreVote", From: other, To: f})
+	d.deliverSel(MsgSel{Type: "Vote", From: other, To: f})
+	d.runNode(f)
+	d.heal()
+	p.Tick = 6
+	d.with(p, 60)
+	for k := 0; k < 3; k++ {
+		d.reportStaleSnapshots()
+		d.with(p, 20)
+	}
 }
 
 // follower f (asynchronous storage writes) is caught up by a snapshot; while its append thread is still
